@@ -4,7 +4,9 @@
 Conventions
 * a *word* is a tuple of generator names (tokens).  The inverse of a name is
   the same name with the case of every letter swapped to the other case
-  ("a" <-> "A", "s1" <-> "S1"); names are all-lower or all-upper.
+  ("a" <-> "A", "s1" <-> "S1"); names are all-lower or all-upper.  A
+  representation may be created with another inverse-naming map (an involution
+  on names, e.g. "x" <-> "xinv"): the functions below take it as `inv=`.
 * surface syntax: "simple" words are strings of one-character names or
   lists/tuples of names; non-simple words are strings of names separated by
   '*', where '(' and ')' may be used for grouping (they carry no meaning for
@@ -72,32 +74,36 @@ def to_surface(tokens, simple=True, parens=False, rng=None):
     return "*".join(p for p in (left, mid, right) if p)
 
 
-def free_reduce(tokens):
+def free_reduce(tokens, inv=None):
     """Freely reduced form.  Repeated elimination of the first adjacent
     inverse pair (quadratic, but a different algorithm from the library's
-    single stack pass)."""
+    single stack pass).  `inv`: the inverse-naming map of the representation
+    (default: case swap)."""
+    inv = inv or inv_name
     w = list(tokens)
     changed = True
     while changed:
         changed = False
         for i in range(len(w) - 1):
-            if w[i + 1] == inv_name(w[i]):
+            if w[i + 1] == inv(w[i]):
                 del w[i:i + 2]
                 changed = True
                 break
     return tuple(w)
 
 
-def formal_inverse(tokens):
-    return tuple(inv_name(t) for t in reversed(tuple(tokens)))
+def formal_inverse(tokens, inv=None):
+    inv = inv or inv_name
+    return tuple(inv(t) for t in reversed(tuple(tokens)))
 
 
-def alphabet(names):
+def alphabet(names, inv=None):
     """lower-case names -> all letters (names and inverses)."""
+    inv = inv or inv_name
     out = []
     for g in names:
         out.append(g)
-        out.append(inv_name(g))
+        out.append(inv(g))
     return out
 
 
@@ -108,9 +114,10 @@ def all_words(letters, maxlen):
             yield tuple(t)
 
 
-def random_word(rng, letters, length, cancel=0.0):
+def random_word(rng, letters, length, cancel=0.0, inv=None):
     """random word; with probability `cancel` per position an inverse pair
     x x^-1 is planted (so that free reduction is exercised)."""
+    inv_name = inv or globals()["inv_name"]
     out = []
     while len(out) < length:
         x = letters[int(rng.integers(0, len(letters)))]
@@ -195,9 +202,11 @@ def inverse(M):
     return np.linalg.solve(M.astype(dt), np.eye(n, dtype=dt))
 
 
-def table(gens, inverses=None):
+def table(gens, inverses=None, inv=None):
     """{lower name: matrix} -> {letter: matrix} with inverse letters.
-    `inverses` may give exact inverses (same keys)."""
+    `inverses` may give exact inverses (same keys).  `inv`: inverse-naming
+    map (default: case swap)."""
+    inv_name = inv or globals()["inv_name"]
     out = {}
     for g, M in gens.items():
         M = np.asarray(M)
